@@ -14,7 +14,7 @@
 From KP Require Import model.Base model.Trace model.M5time.
 Local Open Scope N_scope.
 
-Record mcmd := mkMC { mc_kind : cmdkind; mc_issue : N; mc_dt : N; mc_drt : N }.
+Record mcmd := mkMC { mc_kind : cmdkind; mc_issue : N; mc_dt : N; mc_drt : N; mc_set : bool (* durations known *) }.
 
 Record mstate := mkM {
   m_cmds : list (nat * mcmd);
@@ -25,7 +25,7 @@ Record mstate := mkM {
   m_svcs : list (nat * (option nat * option nat));
   m_new : list (nat * nat);                           (* command -> balancer it created *)
   m_repl : list (nat * nat);                          (* command -> balancer it replaced *)
-  m_rem : list (nat * nat);                           (* command -> service object it removed *)
+  m_rem : list (nat * list nat);                      (* command -> balancers of the service object it removed *)
   m_fail : list (nat * N)                             (* position, code *)
 }.
 
@@ -69,10 +69,10 @@ Definition m_step (m : mstate) (ie : nat * event) : mstate :=
   match e_k e with
   | KParked => mkM (m_cmds m) true (m_lbs m) (m_names m) (m_dead m) (m_svcs m) (m_new m) (m_repl m) (m_rem m) (m_fail m)
   | KTargetName t n => mkM (m_cmds m) (m_parks m) (m_lbs m) (nset (m_names m) t n) (m_dead m) (m_svcs m) (m_new m) (m_repl m) (m_rem m) (m_fail m)
-  | KIssue c k _ => mkM (nset (m_cmds m) c (mkMC k (e_t e) 0 0)) (m_parks m) (m_lbs m) (m_names m) (m_dead m) (m_svcs m) (m_new m) (m_repl m) (m_rem m) (m_fail m)
+  | KIssue c k _ => mkM (nset (m_cmds m) c (mkMC k (e_t e) 0 0 false)) (m_parks m) (m_lbs m) (m_names m) (m_dead m) (m_svcs m) (m_new m) (m_repl m) (m_rem m) (m_fail m)
   | KParams c dt drt _ =>
     match nget (m_cmds m) c with
-    | Some mc => mkM (nset (m_cmds m) c (mkMC (mc_kind mc) (mc_issue mc) dt drt)) (m_parks m) (m_lbs m) (m_names m) (m_dead m) (m_svcs m) (m_new m) (m_repl m) (m_rem m) (m_fail m)
+    | Some mc => mkM (nset (m_cmds m) c (mkMC (mc_kind mc) (mc_issue mc) dt drt true)) (m_parks m) (m_lbs m) (m_names m) (m_dead m) (m_svcs m) (m_new m) (m_repl m) (m_rem m) (m_fail m)
     | None => m
     end
   | KLbNew lb ts => mkM (m_cmds m) (m_parks m) (nset (m_lbs m) lb ts) (m_names m) (m_dead m) (m_svcs m) (m_new m) (m_repl m) (m_rem m) (m_fail m)
@@ -83,28 +83,35 @@ Definition m_step (m : mstate) (ie : nat * event) : mstate :=
     | None => m
     end
   | KSlot s ro lb rep =>
-    let x := m_slots m s in
-    let sv := nset (m_svcs m) s (if ro then (fst x, Some lb) else (Some lb, snd x)) in
-    let rp := match is_cmd (e_by e), rep with Some c, Some old => nset (m_repl m) c old | _, _ => m_repl m end in
-    mkM (m_cmds m) (m_parks m) (m_lbs m) (m_names m) (m_dead m) sv (m_new m) rp (m_rem m) (m_fail m)
+    match is_cmd (e_by e) with
+    | Some c =>
+      let x := m_slots m s in
+      let sv := nset (m_svcs m) s (if ro then (fst x, Some lb) else (Some lb, snd x)) in
+      let rp := match rep with Some old => nset (m_repl m) c old | None => m_repl m end in
+      mkM (m_cmds m) (m_parks m) (m_lbs m) (m_names m) (m_dead m) sv (m_new m) rp (m_rem m) (m_fail m)
+    | None => m
+    end
   | KSvcCopy old new =>
-    mkM (m_cmds m) (m_parks m) (m_lbs m) (m_names m) (m_dead m) (nset (m_svcs m) new (m_slots m old)) (m_new m) (m_repl m) (m_rem m) (m_fail m)
+    match is_cmd (e_by e) with
+    | Some _ => mkM (m_cmds m) (m_parks m) (m_lbs m) (m_names m) (m_dead m) (nset (m_svcs m) new (m_slots m old)) (m_new m) (m_repl m) (m_rem m) (m_fail m)
+    | None => m
+    end
   | KRemoved s =>
     match is_cmd (e_by e) with
-    | Some c => mkM (m_cmds m) (m_parks m) (m_lbs m) (m_names m) (m_dead m) (m_svcs m) (m_new m) (m_repl m) (nset (m_rem m) c s) (m_fail m)
+    | Some c => mkM (m_cmds m) (m_parks m) (m_lbs m) (m_names m) (m_dead m) (m_svcs m) (m_new m) (m_repl m) (nset (m_rem m) c (m_svc_lbs m s)) (m_fail m)
     | None => m
     end
   | KProbeSent n _ => if m_live m n then m else fail m i 4
   | KReturn c r =>
     match nget (m_cmds m) c with
     | Some mc =>
-      let m1 := if m_parks m || bound_ok mc (e_t e) then m else fail m i (bound_code mc) in
+      let m1 := if m_parks m || negb (mc_set mc) || bound_ok mc (e_t e) then m else fail m i (bound_code mc) in
       match r with
       | CROk =>
         if is_deploy (mc_kind mc) then
           match nget (m_repl m1) c with Some old => kill m1 (m_targets m1 old) | None => m1 end
         else match mc_kind mc, nget (m_rem m1) c with
-             | CkRemove, Some s => kill m1 (flat_map (m_targets m1) (m_svc_lbs m1 s))
+             | CkRemove, Some lbs => kill m1 (flat_map (m_targets m1) lbs)
              | _, _ => m1
              end
       | _ =>
@@ -124,12 +131,114 @@ Definition c17_failures (tr : trace) : list (nat * N) := rev (m_fail (fold_left 
 
 Definition c17_ok (tr : trace) : bool := match c17_failures tr with [] => true | _ => false end.
 
+(** ** The bounds part of the monitor on its own (codes 1-3 of [c17_failures]);
+    [accepted_bounds_ok] below links it to the view. *)
+Record bstate := mkB { b_cmds : list (nat * mcmd); b_parks : bool; b_ok : bool }.
+Definition b_init : bstate := mkB [] false true.
+
+Definition b_step (b : bstate) (e : event) : bstate :=
+  match e_k e with
+  | KParked => mkB (b_cmds b) true (b_ok b)
+  | KIssue c k _ => mkB (nset (b_cmds b) c (mkMC k (e_t e) 0 0 false)) (b_parks b) (b_ok b)
+  | KParams c dt drt _ =>
+    match nget (b_cmds b) c with
+    | Some mc => mkB (nset (b_cmds b) c (mkMC (mc_kind mc) (mc_issue mc) dt drt true)) (b_parks b) (b_ok b)
+    | None => b
+    end
+  | KReturn c _ =>
+    match nget (b_cmds b) c with
+    | Some mc => if b_parks b || negb (mc_set mc) || bound_ok mc (e_t e) then b else mkB (b_cmds b) (b_parks b) false
+    | None => b
+    end
+  | _ => b
+  end.
+
+Definition c17_bounds_ok (tr : trace) : bool := b_ok (fold_left b_step tr b_init).
+
 (** ** Evaluation of one implementation trace: first event the acceptor rejects
     (None = accepted) and the monitor's failures. *)
 Definition eval_trace (tr : trace) : option nat * list (nat * N) :=
-  (first_reject step init tr 0, c17_failures tr).
+  (first_reject step init tr 0,
+   c17_failures tr ++ (if c17_bounds_ok tr then [] else [(0%nat, 9)])).   (* 9: the bounds monitor on its own *)
 
 (** Per returned command: kind, result, elapsed time, bound (for the evidence). *)
 Definition kind_code (k : cmdkind) : N :=
   match k with CkDeploy => 0 | CkRolloutDeploy => 1 | CkRolloutSet => 2 | CkRolloutStop => 3
              | CkPause => 4 | CkStop => 5 | CkResume => 6 | CkRemove => 7 end.
+
+(** ** Link: every accepted trace satisfies the bounds part of the monitor. *)
+From Coq Require Import ZifyN ZifyNat ZifyBool.
+From KP Require Import proofs.M5timeFacts proofs.M5timeFacts2 proofs.M5timeFacts3 proofs.M5timeFacts4.
+
+Definition rb_cmd (s : state) (c : nat) (mc : mcmd) : Prop :=
+  exists cm, nget (cmds s) c = Some cm /\ c_kind cm = mc_kind mc /\ c_issue cm = mc_issue mc /\
+             (mc_set mc = true -> c_phase cm <> PNew /\ c_dt cm = mc_dt mc /\ c_drt cm = mc_drt mc).
+
+Definition rb (b : bstate) (s : state) : Prop :=
+  b_parks b = parks s /\ b_ok b = true /\ forall c mc, nget (b_cmds b) c = Some mc -> rb_cmd s c mc.
+
+Lemma rb_cmd_keeps s s' c mc : keeps (cmds s) (cmds s') -> rb_cmd s c mc -> rb_cmd s' c mc.
+Proof.
+  intros K (cm & G & K1 & K2 & K3). destruct (K _ _ G) as (cm' & G' & (L1 & L2 & L3 & _)).
+  exists cm'. split; [exact G'|]. split; [congruence|]. split; [congruence|].
+  intros Hs. destruct (K3 Hs) as (P & D1 & D2). destruct (L3 P) as (E1 & E2 & P'). repeat split; congruence.
+Qed.
+
+Lemma bound_ok_of cm mc t :
+  c_kind cm = mc_kind mc -> c_issue cm = mc_issue mc -> c_dt cm = mc_dt mc -> c_drt cm = mc_drt mc ->
+  bound cm t -> bound_ok mc t = true.
+Proof.
+  unfold bound, bound_ok. intros -> -> -> ->.
+  destruct (is_deploy (mc_kind mc)); [intros H; apply N.leb_le; exact H|].
+  destruct (is_pause_stop (mc_kind mc)); [intros H; apply N.leb_le; exact H|intros H; apply N.eqb_eq; exact H].
+Qed.
+
+Lemma rb_step b s e s' : rb b s -> tinv s -> step s e = Some s' -> rb (b_step b e) s'.
+Proof.
+  intros (R1 & R2 & R3) Hinv Hs.
+  pose proof (step_parks _ _ _ _ Hs) as Hp. pose proof (step_keeps _ _ _ _ Hs) as Hk.
+  assert (Rk : forall c mc, nget (b_cmds b) c = Some mc -> rb_cmd s' c mc).
+  { intros c mc H. exact (rb_cmd_keeps _ _ _ _ Hk (R3 _ _ H)). }
+  unfold b_step, is_parked in *. destruct (e_k e) eqn:Ek; rewrite ?orb_false_r in Hp;
+    try (split; [cbn; congruence|split; [exact R2|exact Rk]]; fail).
+  - (* KIssue *)
+    split; [cbn; congruence|split; [exact R2|]]. cbn [b_cmds]. intros c0 mc0. rewrite nget_nset.
+    destruct (Nat.eqb c0 c) eqn:E; [|apply Rk]. apply Nat.eqb_eq in E; subst c0. intros H; injection H as <-.
+    unfold step, step_gen in Hs. destruct (e_t e <? clock s); [discriminate|]. cbv zeta in Hs. rewrite Ek in Hs.
+    destruct (nget (cmds (upd_clock s (e_t e))) c); [discriminate|]. injection Hs as <-.
+    eexists. split; [unfold put; cbn [cmds upd_cmds]; apply nget_nset_same|]. cbn. repeat split; discriminate.
+  - (* KParams *)
+    destruct (nget (b_cmds b) c) as [mc|] eqn:Hb; [|split; [cbn; congruence|split; [exact R2|exact Rk]]].
+    split; [cbn; congruence|split; [exact R2|]]. cbn [b_cmds]. intros c0 mc0. rewrite nget_nset.
+    destruct (Nat.eqb c0 c) eqn:E; [|apply Rk]. apply Nat.eqb_eq in E; subst c0. intros H; injection H as <-.
+    destruct (R3 _ _ Hb) as (cm & G & K1 & K2 & _).
+    unfold step, step_gen in Hs. destruct (e_t e <? clock s); [discriminate|]. cbv zeta in Hs. rewrite Ek in Hs.
+    cbn [cmds upd_clock] in Hs. rewrite G in Hs. destruct (c_phase cm); try discriminate.
+    destruct (own_time_ok _ cm _); [|discriminate]. injection Hs as <-.
+    eexists. split; [unfold put; cbn [cmds upd_cmds]; apply nget_nset_same|]. cbn. repeat split; try assumption; discriminate.
+  - (* KReturn *)
+    destruct (nget (b_cmds b) c) as [mc|] eqn:Hb; [|split; [cbn; congruence|split; [exact R2|exact Rk]]].
+    destruct (b_parks b || negb (mc_set mc) || bound_ok mc (e_t e)) eqn:Hc;
+      [split; [cbn; congruence|split; [exact R2|exact Rk]]|].
+    exfalso. apply orb_false_iff in Hc. destruct Hc as [Hc Hbd]. apply orb_false_iff in Hc. destruct Hc as [Hpk Hset].
+    apply negb_false_iff in Hset. rewrite R1 in Hpk.
+    destruct (R3 _ _ Hb) as (cm & G & K1 & K2 & K3). destruct (K3 Hset) as (_ & D1 & D2).
+    destruct (return_bound _ _ _ _ _ _ Hinv Hs Ek Hpk) as (cm' & G' & B). rewrite G in G'; injection G' as <-.
+    rewrite (bound_ok_of _ _ _ K1 K2 D1 D2 B) in Hbd. discriminate.
+  - (* KParked *)
+    split; [cbn; rewrite Hp, orb_true_r; reflexivity|split; [exact R2|exact Rk]].
+Qed.
+
+Theorem accepted_bounds_ok : forall tr, accepted tr = true -> c17_bounds_ok tr = true.
+Proof.
+  intros tr. unfold accepted, c17_bounds_ok.
+  assert (H : forall tr b s, rb b s -> tinv s -> forall s', run step s tr = Some s' -> b_ok (fold_left b_step tr b) = true).
+  { clear tr. induction tr as [|e tr IH]; intros b s R Hi s'; cbn [run fold_left].
+    - intros _. exact (proj1 (proj2 R)).
+    - destruct (step s e) as [s1|] eqn:E; [|discriminate]. intros Hr.
+      exact (IH _ _ (rb_step _ _ _ _ R Hi E) (step_tinv _ _ _ _ Hi E) _ Hr). }
+  destruct (run step init tr) as [s'|] eqn:R; [|discriminate]. intros _.
+  apply (H tr b_init init) with (s' := s'); [|apply tinv_init|exact R].
+  split; [reflexivity|split; [reflexivity|intros c mc Hc; discriminate]].
+Qed.
+Print Assumptions accepted_bounds_ok.
